@@ -21,8 +21,11 @@ REG.add(Contract('<ext>', 'RawCP.__getitem__', params=[('self', T.Obj('RawCP')),
     external=True, note='parser[name]: the section proxy (its length is the number of own options: options() override, C15); KeyError when there is no such section', props=['C14', 'C20']))
 REG.add(Contract('<ext>', 'SectionProxy.__len__', params=[('self', T.Obj('SectionProxy'))], result=T.Int, ensures=lambda v, old, res: [res == sec_len(v.self)], external=True,
     note='len(section proxy)', props=['C14']))
+def _keys_are_options(sp):
+    i = z3.Int('i!sk')
+    return z3.ForAll([i], z3.Implies(z3.And(0 <= i, i < z3.Length(sec_keys(sp))), sec_has(sp, sec_keys(sp)[i])), patterns=[sec_keys(sp)[i]])
 REG.add(Contract('<ext>', 'SectionProxy.__iter__', params=[('self', T.Obj('SectionProxy'))], result=T.List(T.Str),
-    ensures=lambda v, old, res: [res == sec_keys(v.self)], external=True,
+    ensures=lambda v, old, res: [res == sec_keys(v.self), _keys_are_options(v.self)], external=True,
     note='iterating a section proxy yields its option names (after optionxform) in file order; the strict parser has already rejected equal names (A5)', props=['C20']))
 
 DASH = z3.StringVal('-')
